@@ -18,7 +18,9 @@ EXPLANATION = ("parse(): the validate bit gates only the CRC test (post: result 
 
 def units(tier):
     us = []
-    for q in ("parse", "_parse_rtcm3", "_read_bytes", "read", "__init__", "_do_error"):
+    # "for a stream of valid frames and foreign-protocol data": the foreign items are taken whole (their own length fields), so
+    # both settings of `parsed` see the same frames
+    for q in ("parse", "_parse_rtcm3", "_read_bytes", "_read_line", "_parse_ubx", "_parse_nmea", "read", "__init__", "_do_error"):
         us += func_units(f"{R}.{q}", tier)
     us += func_units("pyrtcm.rtcmmessage.RTCMMessage.__init__", tier)
     from pyvc import clientrun
